@@ -65,13 +65,14 @@ PROPS["C16"] = {
         {"id": "DL-hist", "text": "history independence: starting from ANY matrix of dimension S satisfying the representation invariant "
                                   "(sentinel row/column = S, origin 0, every other cell an arbitrary float) the result equals that of a "
                                   "fresh instance; S smaller than needed exercises growth",
-         "bounds": "(n1,n2,S) as listed", "opts": {"unwind": 8, "timeout": 1500, "unwindset": DL_UNWINDSET},
-         "quick": ["dl_hist_2_2_2", "dl_hist_2_2_4", "dl_hist_2_2_6", "dl_hist_3_2_3", "dl_hist_1_3_4"],
-         "thorough": ["dl_hist_2_3_5", "dl_hist_3_3_2", "dl_hist_3_3_5", "dl_hist_3_3_7", "dl_hist_4_3_3"]},
+         "bounds": "(n1,n2,S) as listed; S ranges over n (two short), n+1 (one short), n+2 (exact), n+3, n+4",
+         "opts": {"unwind": 8, "timeout": 1500, "unwindset": DL_UNWINDSET},
+         "quick": ["dl_hist_1_1_2", "dl_hist_1_2_3", "dl_hist_2_2_2", "dl_hist_2_2_3", "dl_hist_2_2_4", "dl_hist_2_2_5", "dl_hist_2_2_6", "dl_hist_3_2_3", "dl_hist_1_3_4"],
+         "thorough": ["dl_hist_2_3_5", "dl_hist_3_3_2", "dl_hist_3_3_3", "dl_hist_3_3_4", "dl_hist_3_3_5", "dl_hist_3_3_7", "dl_hist_4_3_3"]},
         {"id": "DL-inv", "text": "the representation invariant assumed by DL-hist is re-established by every call (and the matrix is "
                                  "at least (n+2)x(n+2) with a flat buffer of size^2)",
          "bounds": "(n1,n2,S) as listed", "opts": {"unwind": 8, "timeout": 1500, "unwindset": DL_UNWINDSET},
-         "quick": ["dl_inv_2_2_2", "dl_inv_2_3_5"], "thorough": ["dl_inv_3_1_6", "dl_inv_3_3_4"]},
+         "quick": ["dl_inv_1_2_3", "dl_inv_2_2_2", "dl_inv_2_2_3", "dl_inv_2_2_4", "dl_inv_2_3_5"], "thorough": ["dl_inv_3_1_6", "dl_inv_3_3_4"]},
         {"id": "DL-prefix", "text": "after distance(a,b) the matrix cell for the prefix pair (i,j) equals distance(a[..i], b[..j]) computed "
                                     "on its own (what the word matcher reads)",
          "bounds": "(n1,n2,i,j) as listed", "opts": {"unwind": 8, "timeout": 1500, "unwindset": DL_UNWINDSET},
@@ -93,8 +94,10 @@ PROPS["C19"] = {
                                      "matrix buffer) is inside its object - from ARBITRARY earlier matrices smaller, equal and larger than needed",
          "bounds": "(n1,n2,S) of the dl_hist / dl_inv instances; all CBMC pointer checks selected",
          "opts": {"unwind": 8, "timeout": 1500, "unwindset": DL_UNWINDSET},
-         "quick": ["dl_hist_2_2_2", "dl_hist_2_2_4", "dl_hist_2_2_6", "dl_hist_3_2_3", "dl_inv_2_3_5", "dl_laws_1_1_20", "dl_laws_2_1_20"],
-         "thorough": ["dl_hist_2_3_5", "dl_hist_3_3_2", "dl_hist_3_3_5", "dl_hist_3_3_7", "dl_hist_4_3_3", "dl_inv_3_1_6", "dl_laws_3_3_20", "dl_laws_4_4_4"]},
+         "quick": ["dl_hist_1_1_2", "dl_hist_1_2_3", "dl_hist_2_2_2", "dl_hist_2_2_3", "dl_hist_2_2_4", "dl_hist_2_2_5", "dl_hist_3_2_3", "dl_inv_2_2_3", "dl_inv_2_3_5",
+                   "dl_laws_1_1_20", "dl_laws_2_1_20"],
+         "thorough": ["dl_hist_2_2_6", "dl_hist_2_3_5", "dl_hist_3_3_2", "dl_hist_3_3_3", "dl_hist_3_3_4", "dl_hist_3_3_5", "dl_hist_3_3_7", "dl_hist_4_3_3", "dl_inv_3_1_6",
+                      "dl_laws_3_3_20", "dl_laws_4_4_4"]},
         {"id": "MEM-jaccard", "text": "every unchecked read of the Jaccard merge (simple_similarity) and every buffer access of "
                                       "Jaccard::similarity is in range, from ARBITRARY earlier buffer contents shorter / longer than needed",
          "bounds": "(la,lb,p1,p2) of the jac_hist / jac_simple instances; all CBMC pointer checks selected",
@@ -137,8 +140,8 @@ PROPS["C07"] = {
     "lemmas": [CMP_LEMMA, LS_LEMMA],
 }
 
-WM_OPTS = {"unwind": 7, "timeout": 2400, "checks": "functional", "mem_gb": 12}
-TM_OPTS = {"unwind": 7, "timeout": 2400, "checks": "functional", "mem_gb": 14}
+WM_OPTS = {"unwind": 7, "timeout": 2400, "checks": "functional", "mem_gb": 8}
+TM_OPTS = {"unwind": 7, "timeout": 2400, "checks": "functional", "mem_gb": 10}
 WORD_ASSUME = [
     "WF: texts are built directly in the tokeniser's output format (DESIGN §4); the tokeniser itself is not executed",
     "STEM: stem lengths are the concrete values in the instance names (the matcher's scan range depends on them); "
@@ -157,8 +160,17 @@ WM_CONTRACT = {"id": "WM-contract", "text": "whatever the REAL word_match return
 WM_PREFIX = {"id": "WM-prefix", "text": "if the query word is the k-letter prefix of the title word (same characters and classes), unfinished - or "
                                          "finished when k = |word| - the REAL word_match matches and reports exactly the span (0,k) on both sides with zero typos",
              "bounds": "(|r|,k,stem_r,stem_q,finished) from the instance names, |r| <= 3", "opts": WM_OPTS,
-             "quick": ["wm_pre_1_1_1_1_u", "wm_pre_1_1_1_1_f", "wm_pre_2_1_2_1_u", "wm_pre_2_2_2_2_u", "wm_pre_2_2_1_1_f", "wm_pre_3_1_3_1_u"],
-             "thorough": ["wm_pre_3_2_3_2_u", "wm_pre_3_2_2_1_u", "wm_pre_3_3_3_3_u", "wm_pre_3_3_2_2_f"]}
+             "quick": ["wm_pre_1_1_1_1_u", "wm_pre_1_1_1_1_f", "wm_pre_2_1_2_1_u", "wm_pre_2_2_2_2_u", "wm_pre_2_2_1_1_f", "wm_pre_2_2_1_1_u", "wm_pre_3_1_3_1_u"],
+             "thorough": ["wm_pre_3_2_3_2_u", "wm_pre_3_2_2_1_u", "wm_pre_3_3_3_3_u", "wm_pre_3_3_2_2_f", "wm_pre_3_3_1_1_u", "wm_pre_3_2_1_1_u", "wm_pre_3_3_1_2_u"],
+             "per_instance": {"wm_pre_3_3_1_1_u": {"mem_gb": 44, "timeout": 3000}, "wm_pre_3_2_1_1_u": {"mem_gb": 30, "timeout": 3000},
+                              "wm_pre_3_3_1_2_u": {"mem_gb": 44, "timeout": 3000}, "wm_pre_3_2_2_1_u": {"mem_gb": 24}}}
+WM_GATES = {"id": "WM-gates", "text": "for a k-letter prefix (unfinished; or the finished exact copy when k = n) of an n-letter title word the REAL "
+                                       "length_check and jaccard_check both accept - the two pre-filters of the matcher, decided on longer words than "
+                                       "the full matcher can be run on",
+            "bounds": "(n,k,finished) from the instance names, n <= 6; all chars and classes symbolic",
+            "opts": {"unwind": 9, "timeout": 1500, "checks": "functional", "mem_gb": 10},
+            "quick": ["wm_gate_2_1_u", "wm_gate_3_2_u", "wm_gate_3_3_f", "wm_gate_4_1_u", "wm_gate_4_2_u", "wm_gate_4_3_u", "wm_gate_4_4_f", "wm_gate_4_4_u"],
+            "thorough": ["wm_gate_5_1_u", "wm_gate_5_2_u", "wm_gate_5_3_u", "wm_gate_5_4_u", "wm_gate_5_5_f", "wm_gate_5_5_u", "wm_gate_6_2_u", "wm_gate_6_3_u", "wm_gate_6_5_u", "wm_gate_6_6_f"]}
 WM_EQ = {"id": "WM-equal", "text": "a finished exact copy of a word matches it in full with zero typos", "bounds": "(n,stem_r,stem_q), n <= 3",
          "opts": WM_OPTS, "quick": ["wm_eq_1", "wm_eq_2", "wm_eq_2_s1"], "thorough": ["wm_eq_3", "wm_eq_3_s2"]}
 TRI_PREFIX = {"id": "TRI-prefix", "text": "a k-letter prefix of an n-letter word shares at least one gram with the word (real collect_grams on both), "
@@ -184,16 +196,22 @@ SPLIT_SAFE = {"id": "SPLIT-safe", "text": "for ANY joined match permitted by the
               "quick": ["split_1_1_1", "split_1_1_2", "split_2_1_1", "split_2_1_2", "split_2_1_3"],
               "thorough": ["split_1_1_5", "split_3_1_3", "split_2_2_2", "split_4_1_4", "split_1_1_8", "split_5_1_5"]}
 
+REG_LIMIT = {"id": "REG-limit", "text": "top-level registry, real lib.rs: create_store, K hits in the result buffer, then set_limit with a SYMBOLIC limit: no "
+                                        "underflow / panic / capacity overflow, the limit is stored, the buffered result is untouched and the buffer can hold `limit` hits",
+             "bounds": "K buffered hits and limit < LMAX from the instance names (limit below, equal to and above the default capacity 10)",
+             "opts": {"unwind": 12, "timeout": 900, "mem_gb": 12},
+             "quick": ["reg_limit_0_4", "reg_limit_3_8", "reg_limit_5_8", "reg_limit_3_14"], "thorough": ["reg_limit_10_14"]}
+
 PROPS["C03"] = {
     "assumptions": WORD_ASSUME + ["glue (DESIGN §5 C03): record listed by the index (TRI-prefix + index completeness, which is outside reach) -> "
                                   "word matched (WM-prefix) -> kept by text_match and the filter (TM-structure at one-word shapes) -> not truncated (LS-topk)"],
     "outside": "words longer than 3 letters at the matcher level (4x4 exceeds 40 GB), longer than 5 at the gram level; the index's posting lists; the tokeniser",
-    "lemmas": [WM_PREFIX, TRI_PREFIX],
+    "lemmas": [WM_PREFIX, WM_GATES, TRI_PREFIX],
 }
 PROPS["C13"] = {
     "assumptions": WORD_ASSUME + ["glue: as C03 with WM-equal for each word"],
     "outside": "words longer than 3 letters; titles of more than one word at the text level (the two-word orderings are not decided); the tokeniser",
-    "lemmas": [WM_EQ],
+    "lemmas": [WM_EQ, dict(WM_GATES, id="WM-gates-equal", quick=["wm_gate_3_3_f", "wm_gate_4_4_f"], thorough=["wm_gate_5_5_f", "wm_gate_6_6_f"])],
 }
 PROPS["C05"] = {
     "assumptions": WORD_ASSUME,
@@ -210,9 +228,9 @@ PROPS["C09"] = {
 }
 PROPS["C01"] = {
     "assumptions": WORD_ASSUME,
-    "outside": "the tokeniser and normalisation on arbitrary Unicode, Store/registry level, highlight string building, words longer than 3 letters, "
+    "outside": "the tokeniser and normalisation on arbitrary Unicode, Store level, the registry beyond set_limit (add_record / run_search run the tokeniser), highlight string building, words longer than 3 letters, "
                "more than two words per text; 'no hang' only as termination within the unwinding bounds",
-    "lemmas": [dict(TM_STRUCT, id="TM-safe"), dict(WM_CONTRACT, id="WM-safe"), SPLIT_SAFE,
+    "lemmas": [dict(TM_STRUCT, id="TM-safe"), dict(WM_CONTRACT, id="WM-safe"), SPLIT_SAFE, REG_LIMIT,
                {"id": "K-safe", "text": "distance / Jaccard / LimitSort kernels: no panic, no overflow, all memory accesses in range (all CBMC checks selected)",
                 "bounds": "kernel shapes as listed", "opts": {"unwind": 10, "timeout": 1500, "unwindset": DL_UNWINDSET},
                 "quick": ["dl_laws_2_2_2", "dl_hist_2_2_2", "jac_fresh_2_3", "ls_topk_3_2"], "thorough": ["dl_laws_3_3_3", "jac_fresh_3_3", "ls_topk_7_3"]}],
@@ -226,4 +244,21 @@ PROPS["C18"] = {
                                           "window of three letters, in order, and nothing else", "bounds": "n in 0..6, all chars symbolic",
                 "opts": {"unwind": 9, "timeout": 900}, "quick": ["idx_iter_1", "idx_iter_2", "idx_iter_3", "idx_iter_4"], "thorough": ["idx_iter_5", "idx_iter_6"]},
                TRI_PREFIX, dict(LS_LEMMA, id="LS-cap")],
+}
+
+PROPS["C08"] = {
+    "assumptions": ["the match vectors of each scenario are GIVEN (full word / k-letter prefix / typo match, as the WM lemmas show the matcher reports them "
+                    "for words up to 3 letters; for the 5-9 letter words of the property text this is an assumption); word lengths, prefix length, "
+                    "tail length, both ratings symbolic (lengths <= 40, ratings < 2^31)",
+                    "wiring: TM-structure (C09) checks on the real score() that component i is filled by the i-th priority function"],
+    "outside": "that the matcher produces these match vectors for 5-9 letter words (F14); both insertion orders at the store level (F12); real function-word lists",
+    "lemmas": [{"id": "RANK-rules", "text": "with the real score_* functions and the real compare_hits: exact word outranks typo match; both query words outrank one; "
+                                            "'u' outranks 'u'+tail for the full word and any typed prefix; 'u v x' outranks 'u x v'; 'u x' outranks 'x u'; among identical "
+                                            "titles higher rating first and at equal rating 'u' outranks 'u x'; a content word starting with a function word f outranks a "
+                                            "title containing f - all for ALL ratings in [0, 2^31) and all lengths up to 40",
+                "bounds": "lengths 1..40 symbolic, ratings symbolic, typos 0.5 or 1.0 within the matcher's threshold",
+                "opts": {"unwind": 11, "timeout": 900},
+                "quick": ["rank_exact_vs_typo", "rank_both_vs_one", "rank_word_vs_longer", "rank_adjacent", "rank_first_vs_second",
+                          "rank_rating_then_length", "rank_content_vs_function"], "thorough": []},
+               CMP_LEMMA],
 }
